@@ -795,6 +795,21 @@ pub fn bombs(ev: Ev) -> Vec<String> {
         v.push(format!("1{}", "⁹".repeat(n.min(250))));
         v.push(format!("{}!", "9".repeat(n)));
     }
+    // square roots one to five units of the last place away from perfect squares and other round values, at
+    // every scale: an iteration that stops on equality of successive values can alternate there (the pinned
+    // tree panicked inside rust_decimal for sqrt(4.0000000000000000000000000003); repaired, Appendix A)
+    if ev != Ev::I64 {
+        for k in [1u32, 2, 3, 4, 5, 7, 9, 10, 12, 16, 25, 100] {
+            for j in 1..=5u32 {
+                for sc in [28usize, 27, 20, 15] {
+                    let tail = format!("{}{}", "0".repeat(sc - 1), j);
+                    v.push(format!("sqrt({}.{})", k * k, tail));
+                    v.push(format!("sqrt({}.{})", k * k - 1, "9".repeat(sc - 1) + &(10 - j).to_string()));
+                    v.push(format!("sqrt({}.{})", k, tail));
+                }
+            }
+        }
+    }
     v.push("1.2.3".into());
     v.push("1..2".into());
     v.push("..".into());
